@@ -266,6 +266,7 @@ def make_step(
     extra_params: dict[str, Any] | None = None,
     decorator: Callable[..., Any] | None = None,
     deco_kwargs: dict[str, Any] | None = None,
+    ctx_type: Any = None,
 ) -> Any:
     """Build a real ``@step`` method.  ``body(self, ctx, ev, inv, **resources)`` is a coroutine
     function; entry / exit are logged to the harness."""
@@ -317,7 +318,7 @@ def make_step(
 
     fn.__name__ = name
     fn.__qualname__ = f"WF.{name}"  # looks like a method (not a free function)
-    ann: dict[str, Any] = {"ctx": Context}
+    ann: dict[str, Any] = {"ctx": ctx_type or Context}  # (Context[SomeModel] gives the run a typed state store)
     ann["ev"] = accepts[0] if len(accepts) == 1 else Union[tuple(accepts)]  # type: ignore[assignment]
     rets = [type(None) if r is None else r for r in returns]
     ann["return"] = rets[0] if len(rets) == 1 else Union[tuple(rets)]  # type: ignore[assignment]
